@@ -75,6 +75,9 @@ func genCase(t *rapid.T) aggh.XCase {
 		c.Flows[i].CorrS.IngAct = uint8(rapid.IntRange(0, 2).Draw(t, "ing_s"))
 		c.Flows[i].CorrD.IngAct = uint8(rapid.IntRange(0, 2).Draw(t, "ing_d"))
 	}
+	if c.Flows[2].Kind != aggh.KindInterEgressDeny {
+		c.Flows[2].OmitEgress = rapid.Bool().Draw(t, "omit_egress")
+	}
 	switch c.Flows[2].Kind {
 	case aggh.KindInterEgressDeny:
 		c.Flows[2].CorrS.EgrAct = rapid.SampledFrom([]uint8{2, 3}).Draw(t, "deny")
